@@ -23,8 +23,8 @@ fn main() {
         println!("SAN34 ok built=1");
         return;
     }
-    // measured (loaded machine): 3 enumerated lists (every split, slice, mask, delete, select, rechunk) + 2 random cases = 5-6 min
-    let (lists, random) = if tier == "thorough" { (3, 2) } else { (2, 1) };
+    // measured (loaded machine): 3 lists + 2 random cases = 5m50 for one process alone at load ~60, 35 min with 4 processes at load 120; thorough uses 2 + 2
+    let (lists, random) = if tier == "thorough" { (2, 2) } else { (2, 1) };
     let (cases, ops, sigs) = c34::miri_shard(seed, shard, nshards, lists, random);
     for (sig, what) in &sigs {
         println!("SAN-FAIL sig={sig} what={}", what.replace('\n', " "));
